@@ -63,6 +63,9 @@ structure Thread where
   lastAlloc : Nat := 0
   cur : Nat := 0        -- message being processed
   atGvt : Array Nat := #[]   -- `at_gvt_list` of mm/msg_allocator.c
+  /-- result of the PROVEN one-shot function `LP.processPlain` for the message being processed (sent ordinals unknown yet:
+  placeholders), compared with the incrementally built LP state when the `fwd` line arrives -/
+  oneShot : Option (LPState GState) := none
 
 structure Sys where
   P : Params := ⟨0, 1, 1, 1, 0, 0, false, false, false, 0⟩
@@ -156,7 +159,14 @@ def applyExp (s : Sys) (r : Nat) (e : Exp) (arg : Nat) : Sys × String :=
     let s := s.setLp lp l
     let th := s.th r
     let s := if s.termT.getD lp tNone = tNone then s.setTh r { th with exp := th.exp ++ [.termproc lp (s.ev m).t] } else s
-    (s, s!"fwd {m} lp={lp} idx={l.hist.length - 1} st={hx (digest l.st)}")
+    -- glue check: the incrementally built LP must equal what the proven one-shot `LP.processPlain` computes
+    let glue := match th.oneShot with
+      | some lp' =>
+        if lp'.hist.length == l.hist.length && lp'.hist.map Entry.tag == l.hist.map Entry.tag
+           && pastMsgs lp'.hist == pastMsgs l.hist && digest lp'.st == digest l.st && lp'.bound == l.bound
+           && lp'.logs.map (fun (x : Nat × GState) => x.1) == l.logs.map (fun (x : Nat × GState) => x.1) then "" else " GLUE-MISMATCH"
+      | none => " GLUE-UNDEFINED"
+    (s, s!"fwd {m} lp={lp} idx={l.hist.length - 1} st={hx (digest l.st)}{glue}")
   | .antid m f => (s, s!"antid {m} f={f}")
   | .free m =>
     if (s.mrec m).freed then (s, s!"double-free {m}")
@@ -273,13 +283,20 @@ def onExtract (s : Sys) (r m f : Nat) : Sys :=
         let (s, evs) := doRollback s lpI (matchStraggler s.look l.hist me)
         (s, evs ++ [.termrb lpI me.destT])
       else (s, [])
+    -- the proven one-shot function on the state before this message (theorems: C01.history_stays_sorted, C05LP.run_exact)
+    let oneShot := match processPlain (hnd s lpI) s.ev s.look l m me
+        (List.replicate ((hnd s lpI (match (if strag then (rollback (hnd s lpI) s.ev l (matchStraggler s.look l.hist me)).map (·.lp.st) else some l.st) with
+          | some st => st | none => l.st) (s.ev m)).2.length) 0) with
+      | some (lp', _) => some lp'
+      | none => none
     -- forward execution
     let l := s.lp lpI
     let (st', outs) := hnd s lpI l.st (s.ev m)
     let s := s.setLp lpI { l with st := st', bound := some (s.ev m).t }
     -- termination_on_msg_process returns early when termination_t != 0; whether it does is decided when the
     -- rollback's own termination update (if any) has been applied, i.e. at `fwd` time
-    s.setTh r { (s.th r) with exp := evs ++ outs.map (fun e => if s.isRemote e.dest then Exp.rsend lpI e else Exp.send lpI e)
+    s.setTh r { (s.th r) with oneShot := oneShot,
+                              exp := evs ++ outs.map (fun e => if s.isRemote e.dest then Exp.rsend lpI e else Exp.send lpI e)
                                   ++ [.fwd m lpI] }
 
 def insertSorted (e : Event) : List Event → List Event
